@@ -316,6 +316,111 @@ fn universe_case(rng: &mut Rng, rep: &mut Report, case: u64, thorough: bool) {
     }
 }
 
+
+// ------------------------------------------------------------------------------------------------ deep structures
+/// Depth ladder: every bound a recursion limiter or a small-integer depth counter could plausibly use, and its neighbours.
+const DEPTHS: [usize; 24] = [1, 2, 7, 8, 9, 15, 16, 17, 20, 31, 32, 33, 34, 35, 50, 63, 64, 65, 66, 100, 127, 128, 129, 150];
+
+/// Universes that are DEEP instead of wide (added after a seeded depth limit went unnoticed: the random universes
+/// never nest deeper than about 10). One of three structures is stretched to a length from `DEPTHS` (or a random one):
+/// the chain of transitive dependencies (lib0 -> lib1 -> ... -> libN, some links with a leaf at their side), the chain
+/// of parents above a library (the top-most parent declares the dependency and manages its version), the chain of BOM
+/// imports (the innermost BOM manages the version a library leaves open). Judged like every other universe.
+fn deep_case(rng: &mut Rng, rep: &mut Report, case: u64) {
+    let n = if case < 4 * DEPTHS.len() as u64 { DEPTHS[(case / 4) as usize] } else { rng.usize_in(2, 160) };
+    let kind = case % 4;
+    let lib = |i: usize| format!("lib{i}");
+    let mut poms: Vec<(Gav, Pom)> = vec![];
+    let sc = |rng: &mut Rng| -> Option<Scope> { match rng.below(4) { 0 => Some(Scope::Compile), 1 => Some(Scope::Runtime), _ => None } };
+    let mut roots = vec![("d", "lib0".to_string(), "1".to_string(), *rng.pick(&[Scope::Compile, Scope::Runtime, Scope::Test]))];
+    match kind {
+        0 => {
+            for i in 0..=n {
+                let mut deps = vec![];
+                let side_first = rng.bool();
+                if i < n { let mut d = dep("d", &lib(i + 1), Some("1")); d.scope = sc(rng); deps.push(d); }
+                if rng.chance(1, 3) { let mut d = dep("d", &format!("leaf{i}"), Some("1")); d.scope = sc(rng); if side_first { deps.insert(0, d); } else { deps.push(d); } poms.push(pom("d", &format!("leaf{i}"), "1", vec![])); }
+                poms.push(pom("d", &lib(i), "1", deps));
+            }
+            // a rival of the deepest library right below a second root: nearest wins whatever the depth of the other one
+            if rng.chance(1, 3) { poms.push(pom("d", &lib(n), "2", vec![])); poms.push(pom("d", "near", "1", vec![dep("d", &lib(n), Some("2"))])); roots.push(("d", "near".into(), "1".into(), Scope::Compile)); rep.count("deep.rival_of_the_deepest_library_near_the_root"); }
+        }
+        1 => {
+            // lib0 has parents p1 <- p2 <- ... <- pn (pn top-most); pn declares the dependency on `target` without version and manages it
+            for i in 1..=n {
+                let (g, mut p) = pom("d", &format!("p{i}"), "1", vec![]);
+                p.packaging = Some("pom".into());
+                if i < n { p.parent = Some(Gav::new("d", &format!("p{}", i + 1), "1")); }
+                if i == n { p.deps = vec![dep("d", "target", None)]; let mut m = dep("d", "target", Some("3")); m.scope = Some(Scope::Runtime); p.mgmt = vec![m]; }
+                if rng.chance(1, 4) { p.group = None; if p.parent.is_none() { p.group = Some("d".into()); } }
+                poms.push((g, p));
+            }
+            let (g, mut l) = pom("d", "lib0", "1", vec![]); l.parent = Some(Gav::new("d", "p1", "1")); if rng.bool() { l.group = None; } if rng.bool() { l.version = None; }
+            poms.push((g, l));
+            poms.push(pom("d", "target", "3", vec![dep("d", "below", Some("1"))])); poms.push(pom("d", "below", "1", vec![]));
+        }
+        3 => {
+            // several imports side by side (and one level down) that manage the same artifact differently: the first one in
+            // declaration order decides (the importing POM has no plain entry for it)
+            let k = 2 + n % 4;
+            let mut imports = vec![];
+            for i in 0..k {
+                let (g, mut p) = pom("d", &format!("sib{i}"), "1", vec![]);
+                p.packaging = Some("pom".into());
+                let mut m = dep("d", "target", Some(&format!("{}", i + 1))); m.scope = *rng.pick(&[None, Some(Scope::Runtime), Some(Scope::Compile)]);
+                // some siblings manage it through a BOM of their own, or manage something else first
+                if rng.chance(1, 3) { let (g2, mut p2) = pom("d", &format!("sibin{i}"), "1", vec![]); p2.packaging = Some("pom".into()); p2.mgmt = vec![m]; poms.push((g2, p2)); let mut im = dep("d", &format!("sibin{i}"), Some("1")); im.type_ = Some("pom".into()); im.import = true; p.mgmt = vec![im]; }
+                else if rng.chance(1, 3) { p.mgmt = vec![dep("d", "other", Some("9")), m]; } else { p.mgmt = vec![m]; }
+                poms.push((g, p));
+                let mut im = dep("d", &format!("sib{i}"), Some("1")); im.type_ = Some("pom".into()); im.import = true; imports.push(im);
+            }
+            let (g, mut l) = pom("d", "lib0", "1", vec![dep("d", "target", None)]); l.mgmt = imports; poms.push((g, l));
+            for i in 0..k { poms.push(pom("d", "target", &format!("{}", i + 1), vec![])); }
+        }
+        _ => {
+            // lib0 depends on `target` without version; its management imports bom1, which imports bom2, ... bomN manages target
+            for i in 1..=n {
+                let (g, mut p) = pom("d", &format!("bom{i}"), "1", vec![]);
+                p.packaging = Some("pom".into());
+                if i < n { let mut m = dep("d", &format!("bom{}", i + 1), Some("1")); m.type_ = Some("pom".into()); m.import = true; p.mgmt = vec![m]; }
+                else { let mut m = dep("d", "target", Some("4")); if rng.bool() { m.scope = Some(Scope::Runtime); } p.mgmt = vec![m]; }
+                poms.push((g, p));
+            }
+            let (g, mut l) = pom("d", "lib0", "1", vec![dep("d", "target", None)]);
+            let mut m = dep("d", "bom1", Some("1")); m.type_ = Some("pom".into()); m.import = true; l.mgmt = vec![m];
+            poms.push((g, l));
+            poms.push(pom("d", "target", "4", vec![dep("d", "below", Some("1"))])); poms.push(pom("d", "below", "1", vec![]));
+        }
+    }
+    let u = uni(poms, roots.iter().map(|(g, a, v, s)| (*g, a.as_str(), v.as_str(), *s)).collect());
+    let input = || u.to_json();
+    let exp = match refres::resolve(&u, Opts::TRUE, 100_000) {
+        Ok(e) => e,
+        Err(e) => { eprintln!("HARNESS-ERROR C19 deep universe does not resolve under the reference rules: {e}\n{}", input()); std::process::exit(3) }
+    };
+    match refres::resolve_lean(&u) { Ok(l) if l == exp => {}, other => { eprintln!("HARNESS-ERROR C19 the two formulations of the reference disagree on a deep universe: {other:?} vs {exp:?}"); std::process::exit(3) } }
+    rep.eval();
+    let what = ["dependency_chain", "parent_chain", "import_chain", "sibling_imports"][kind as usize];
+    rep.count(&format!("deep.{what}"));
+    rep.count(&format!("deep.{what}.length.{}", match n { 0..=16 => "1-16", 17..=32 => "17-32", 33..=64 => "33-64", 65..=128 => "65-128", _ => "129+" }));
+    rep.seen("deep.lengths", &format!("{what} {n}"));
+    rep.nontrivial(common::rng::fnv(format!("deep {what} {n} {}", exp.len()).as_bytes()));
+    let run = match run_real(&u, 0) {
+        Ok(r) => r,
+        Err(pi) => { rep.violation(format!("C19 panic {}", pi.site()), json!({"panic": pi.message, "input": input(), "expected": show_list(&u, &exp)})); return; }
+    };
+    let detail = |w: &str, observed: Value| json!({"where": w, "structure": format!("{what} of length {n}"), "expected": show_list(&u, &exp), "observed": observed, "input": input()});
+    match &run.result {
+        Ok(act) if *act == exp => rep.count("outcome.equal"),
+        Ok(act) => {
+            let forest = refres::forest(&u, Opts::TRUE, 100_000).unwrap_or_default();
+            let mut keys = BTreeSet::new(); refres::all_keys(&forest, &mut keys);
+            for (sig, w) in judge(&exp, act, &keys) { rep.violation(sig, detail(&w, json!(show_list(&u, act)))); }
+        }
+        Err(msg) => rep.violation(format!("C19 resolve: refuses a universe that resolves under the documented rules ({})", error_template(&run.root_cause)), detail("", json!({"error": msg}))),
+    }
+}
+
 // ------------------------------------------------------------------------------------------------ text forms
 
 fn word(rng: &mut Rng, first: &[u8], rest: &[u8], max: usize) -> String {
@@ -496,6 +601,7 @@ fn main() {
     let n_text = ctx.tier.pick(30_000, 600_000);
     // the short workload first: a starved run then still ends inside the long one, whose obligations are met early
     run_cases(&ctx, &replay, &mut rep, "text", n_text, |rng, rep, i| { if i == 0 { scope_text(rep); } text_case(rng, rep) });
+    run_cases(&ctx, &replay, &mut rep, "deep", ctx.tier.pick(600, 6_000), |rng, rep, i| deep_case(rng, rep, i));
     run_cases(&ctx, &replay, &mut rep, "universes", n, |rng, rep, i| universe_case(rng, rep, i, thorough));
 
     let mut meta = Meta::new("exploration",
@@ -528,6 +634,8 @@ fn main() {
         }
         for (_, name) in FAULTS { need(&mut meta, &format!("would_expose.{name}"), 20); }
         need(&mut meta, "nontrivial", 500);
+        need(&mut meta, "deep.sibling_imports", 50);
+        for what in ["dependency_chain", "parent_chain", "import_chain"] { for l in ["17-32", "33-64", "65-128", "129+"] { need(&mut meta, &format!("deep.{what}.length.{l}"), 3); } }
         need(&mut meta, "identity.same_extension_other_type_both_kept", 20);
         meta.oblige("every type of the handler table that implies a classifier or shares the jar extension occurs in a resolved list",
             ["jar", "ejb", "maven-plugin", "bundle", "test-jar", "ejb-client", "java-source", "javadoc", "war", "pom"].iter().all(|t| rep.sets.get("types").is_some_and(|s| s.contains(*t))));
